@@ -23,7 +23,7 @@ use std::time::{Duration, Instant};
 pub static META: PropMeta = PropMeta {
     id: "C11",
     level: "exploration",
-    rule: "cases: the loop thread runs run(None | 3 s) or block_on(scripted future), in 40% of the cases with a timer armed for one hour in the loop (so that the wait is bounded by a timer deadline); 1..2 actor threads with programs over wakeup / stop / stop+wakeup (run mode) or wake / wake_by_ref+clone / complete+wake / stop+wakeup (block_on mode), released only after the loop thread passed the 'run began' site; the schedule over all yield sites is generated. oracle (logical clock of the controller, blocked-in-kernel detected via /proc): after a wakeup() returned, the wait in progress or the next one returns (a loop thread still asleep in the poller with no wait-return after the wake-up, observed over 300 scheduling rounds, is a lost wake-up); after stop() then wakeup() returned the loop enters the wait at most once more and run returns Ok; run/block_on never return without cause (Ok/None only after a stop began, Some(v) only after the future returned Ready(v)); the future is polled initially and a poll starts after every wake that began while it was pending. non-trivial: an actor's signal site falls between the loop's stop-flag check and its entry into the wait, or between the waker's flag store and its notify, or between the loop's flag swap and its wait; distinct by case fingerprint",
+    rule: "cases: the loop thread runs run(None | 3 s) or block_on(scripted future), in 40% of the cases with a timer armed for one hour in the loop (so that the wait is bounded by a timer deadline); 1..2 actor threads with programs over wakeup / stop / stop+wakeup (run mode) or wake / wake_by_ref+clone / complete+wake / stop+wakeup (block_on mode), released only after the loop thread passed the 'run began' site; in block_on mode the future may additionally wake itself during its first 1..3 polls (on the loop thread), in some cases with no other wake-up source at all; the schedule over all yield sites is generated. oracle (logical clock of the controller, blocked-in-kernel detected via /proc): after a wakeup() returned, the wait in progress or the next one returns (a loop thread still asleep in the poller with no wait-return after the wake-up, observed over 300 scheduling rounds, is a lost wake-up); after stop() then wakeup() returned the loop enters the wait at most once more and run returns Ok; run/block_on never return without cause (Ok/None only after a stop began, Some(v) only after the future returned Ready(v)); the future is polled initially and a poll starts after every wake that began while it was pending. non-trivial: an actor's signal site falls between the loop's stop-flag check and its entry into the wait, or between the waker's flag store and its notify, or between the loop's flag swap and its wait; distinct by case fingerprint",
     assumptions: &[
         "interleavings at yield-site granularity, x86-TSO, real atomics and real poller notification (eventfd)",
         "'promptly' is never a duration: only a loop thread provably asleep in the kernel with an unserved wake-up counts",
@@ -61,6 +61,10 @@ pub struct Case {
     /// a timer armed for one hour sits in the loop (the wait is then bounded by a timer deadline, not unbounded)
     #[serde(default)]
     pub far_timer: bool,
+    /// block_on mode: the future wakes itself (wake_by_ref on its own waker, on the loop thread, during its poll)
+    /// in its first `self_wakes` polls and returns Pending: each such wake must be followed by another poll
+    #[serde(default)]
+    pub self_wakes: u8,
 }
 
 fn case_strategy() -> impl Strategy<Value = Case> {
@@ -71,10 +75,19 @@ fn case_strategy() -> impl Strategy<Value = Case> {
         1 => (Just(Mode::Run3s), proptest::collection::vec(proptest::collection::vec(run_op, 1..=4), 1..=2), schedule_strategy(120)),
         3 => (Just(Mode::BlockOn), proptest::collection::vec(proptest::collection::vec(bo_op, 1..=4), 1..=2), schedule_strategy(120)),
     ]
-    .prop_flat_map(|(mode, actors, schedule)| prop::bool::weighted(0.4).prop_map(move |far_timer| Case { mode, actors: actors.clone(), schedule: schedule.clone(), exact: false, far_timer }))
+    .prop_flat_map(|(mode, actors, schedule)| {
+        (prop::bool::weighted(0.4), prop_oneof![2 => Just(0u8), 1 => 1u8..=3], prop::bool::weighted(0.3)).prop_map(move |(far_timer, sw, quiet)| {
+            let self_wakes = if mode == Mode::BlockOn { sw } else { 0 };
+            // some self-waking cases run with no other wake-up source at all
+            let actors = if self_wakes > 0 && quiet { vec![vec![]] } else { actors.clone() };
+            Case { mode, actors, schedule: schedule.clone(), exact: false, far_timer, self_wakes }
+        })
+    })
 }
 
 struct FutShared {
+    self_wakes_left: AtomicU32,
+    self_wakes_done: AtomicU32,
     waker: Mutex<Option<Waker>>,
     complete: AtomicBool,
     polls: Mutex<Vec<u64>>,
@@ -95,6 +108,12 @@ impl Future for ScriptFut {
             self.0.returned_ready.store(true, Ordering::SeqCst);
             Poll::Ready(4242)
         } else {
+            if self.0.self_wakes_left.load(Ordering::SeqCst) > 0 {
+                // cooperative yield: wake ourselves on the loop thread, then return Pending
+                self.0.self_wakes_left.fetch_sub(1, Ordering::SeqCst);
+                cx.waker().wake_by_ref();
+                self.0.self_wakes_done.fetch_add(1, Ordering::SeqCst);
+            }
             Poll::Pending
         }
     }
@@ -125,12 +144,15 @@ pub fn run_sched(case: &Case) -> Out {
     let ctl = CaseCtl::new(n_actors + 1);
     let loop_idx = n_actors;
     let rec: Arc<Mutex<Vec<Rec>>> = Arc::new(Mutex::new(Vec::new()));
-    let fut = Arc::new(FutShared { waker: Mutex::new(None), complete: AtomicBool::new(false), polls: Mutex::new(vec![]), returned_ready: AtomicBool::new(false) });
+    let fut = Arc::new(FutShared { self_wakes_left: AtomicU32::new(case.self_wakes as u32), self_wakes_done: AtomicU32::new(0), waker: Mutex::new(None), complete: AtomicBool::new(false), polls: Mutex::new(vec![]), returned_ready: AtomicBool::new(false) });
     let (tx_sig, rx_sig) = mpsc::channel::<(LoopSignal, calloop::ping::Ping)>();
     let far_timer = case.far_timer;
     let loop_done = Arc::new(AtomicBool::new(false));
     let loop_result: Arc<Mutex<Option<Result<Option<u32>, String>>>> = Arc::new(Mutex::new(None));
     let stop_begun = Arc::new(AtomicU32::new(0));
+    let polls_at_quiescence = AtomicU32::new(0);
+    let self_wakes_at_quiescence = AtomicU32::new(0);
+    let complete_at_quiescence = AtomicBool::new(false);
     let mode = case.mode;
     let mut out = Out { viol: None, nontrivial: false, classes: vec![], branching: vec![], infra: None };
 
@@ -269,6 +291,14 @@ pub fn run_sched(case: &Case) -> Out {
             }));
         }
         let info = sched::drive(&ctl, &case.schedule, case.exact, 20_000, Duration::from_millis(30));
+        // quiescence: every thread finished or asleep in the kernel; what the future has seen by now is final
+        // unless somebody acts again
+        polls_at_quiescence.store(fut.polls.lock().unwrap().len() as u32, Ordering::SeqCst);
+        self_wakes_at_quiescence.store(fut.self_wakes_done.load(Ordering::SeqCst), Ordering::SeqCst);
+        complete_at_quiescence.store(
+            fut.returned_ready.load(Ordering::SeqCst) || loop_done.load(Ordering::SeqCst) || ctl.slots[loop_idx].state.load(Ordering::SeqCst) == sched::FINISHED,
+            Ordering::SeqCst,
+        );
         // every program has run (or the loop is asleep for good): end the loop so that the case can be torn down
         let ended_by_harness = !loop_done.load(Ordering::SeqCst);
         if info.end != RunEnd::AllFinished {
@@ -315,6 +345,23 @@ pub fn run_sched(case: &Case) -> Out {
                 format!("{what} begun at tick {b} returned, but the loop thread stayed asleep in the poller: no wait returned / no poll started afterwards over 300 scheduling rounds ({mode:?})"),
             ));
             return out;
+        }
+    }
+    // self-wakes (on the loop thread, during the poll): at quiescence every one of them must have been followed
+    // by another poll, unless the loop had ended by then
+    if mode == Mode::BlockOn && info.end != RunEnd::Budget {
+        let sw = self_wakes_at_quiescence.load(Ordering::SeqCst);
+        let pq = polls_at_quiescence.load(Ordering::SeqCst);
+        if sw > 0 {
+            out.classes.push("future_woke_itself_during_poll");
+            // (a stop request ends block_on without another poll; judged only when nobody asked for one)
+            if !complete_at_quiescence.load(Ordering::SeqCst) && stop_begun.load(Ordering::SeqCst) == 0 && pq < sw + 1 {
+                out.viol = Some(Violation::new(
+                    "C11.block_on_wake",
+                    format!("the future woke itself {sw} time(s) during its poll (wake_by_ref on the loop thread, then Pending) but had been polled only {pq} time(s) when every thread was finished or asleep: a wake issued from inside the poll was lost"),
+                ));
+                return out;
+            }
         }
     }
     // a stuck end (actors finished, loop asleep) is legitimate when nobody asked it to stop or wake: the harness ends it
@@ -466,7 +513,7 @@ fn dfs(ctx: &CheckCtx, mode: Mode, actors: Vec<Vec<AOp>>, max: u64) -> Option<Fo
     let name = format!("dfs:{mode:?}:{}", serde_json::to_string(&actors).unwrap_or_default());
     let mut nontrivial = 0u64;
     let (count, complete) = sched::dfs_all(max, |prefix| {
-        let case = Case { mode, actors: actors.clone(), schedule: prefix.to_vec(), exact: true, far_timer: false };
+        let case = Case { mode, actors: actors.clone(), schedule: prefix.to_vec(), exact: true, far_timer: false, self_wakes: 0 };
         let out = run_sched(&case);
         if out.nontrivial {
             nontrivial += 1;
